@@ -1,17 +1,17 @@
-\* C19 family A (quick): attribute representation kinds of x and y, aliases
-CONSTANTS XKinds = {"lit","pdep"}
-          YKinds = {"pdep"}
-          Aliases = {"none","pos","neg"}
+\* mutation: a constant MX attribute is classified NOT_MX - RoundTrip must FAIL
+CONSTANTS XKinds = {"lit"}
+          YKinds = {"none"}
+          Aliases = {"none"}
           Delays = {"none"}
-          Opts = {"base","aliases"}
-          FKinds = {"none"}
-          Typed = {FALSE}
+          Opts = {"base","rpv"}
+          FKinds = {"pdep"}
+          Typed = {TRUE}
           Strs = {FALSE}
           Outs = {TRUE}
           SwapDepClasses = FALSE
           ForgetOutputs = FALSE
           DurDepsOffByOne = FALSE
-          ConstMXNotMX = FALSE
+          ConstMXNotMX = TRUE
           TruthyOptions = FALSE
 INIT Init
 NEXT Next
